@@ -182,6 +182,22 @@ class Space:
         self.ndim = ndim  # int or SymInt
         self.size = z3.Int(f"size_{self.name}")
         self.shape = ShapeTok(self)
+        self._coords_declared = False
+
+    def coord(self, k):
+        return z3.Function(f"coord{k}_{self.name}", Vox, I_)
+
+    def extent(self, k):
+        return z3.Int(f"extent{k}_{self.name}")
+
+    def declare_coords(self, eng):
+        """0 <= coord_k(v) < extent_k for every voxel (assumed geometry of an array)"""
+        if self._coords_declared or not isinstance(self.ndim, int):
+            return
+        self._coords_declared = True
+        v = z3.Const(f"cv_{self.name}", Vox)
+        eng.assume(z3.And(*[z3.And(self.extent(k) >= 1, self.extent(k) <= 2 ** 40, z3.ForAll([v], z3.And(self.coord(k)(v) >= 0, self.coord(k)(v) < self.extent(k)), patterns=[self.coord(k)(v)]))
+                            for k in range(self.ndim)]), why="array geometry: coordinates within the extents")
 
 
 class ShapeTok:
@@ -199,6 +215,16 @@ class ShapeTok:
 
     def pyvc_str(self):
         return f"<shape {self.space.name}>"
+
+    def pyvc_len(self):
+        if not isinstance(self.space.ndim, int):
+            raise Unsupported("len(shape) of an array of symbolic dimensionality")
+        return self.space.ndim
+
+    def pyvc_getitem(self, k):
+        if isinstance(k, int) and isinstance(self.space.ndim, int) and 0 <= k < self.space.ndim:
+            return SymInt(self.space.extent(k))
+        raise Unsupported("shape index")
 
 
 CARDS = {}  # const name -> (kind, term, space)   kind: 'card' (bool term) | 'sum' (int term)
@@ -661,6 +687,10 @@ class VArr:
             return VSel(self, k.term)
         if hasattr(k, "crop_of"):
             return k.crop_of(self)
+        if isinstance(k, tuple) and k and all(isinstance(x, slice) for x in k):
+            return box_from_slices(cur(), self.space, k).crop_of(self)
+        if isinstance(k, slice) and isinstance(self.space.ndim, int) and self.space.ndim == 1:
+            return box_from_slices(cur(), self.space, (k,)).crop_of(self)
         raise Unsupported(f"array indexing with {k!r}")
 
 
@@ -734,6 +764,104 @@ class ParArr:
         mx, w = eng.fresh("pmax", I_), eng.fresh("pmax_w", I_)
         eng.assume(z3.And(z3.Select(m.dom, w), val(w) == mx, z3.ForAll([q], z3.Implies(z3.Select(m.dom, q), val(q) <= mx))), why="max of array")
         return wrap(mx, True, self.dtype_name)
+
+
+class Box:
+    """a crop region: inbox(v) says whether voxel v lies inside"""
+
+    def __init__(self, inbox, slices=None, name="box"):
+        self.inbox = inbox
+        self.slices = slices
+        self.name = name
+
+    def crop_of(self, arr):
+        zero = z3.BoolVal(False) if z3.is_bool(arr.term) else (z3.RealVal(0) if z3.is_real(arr.term) else z3.IntVal(0))
+        # modelling contract: cropping to a box == masking by the box for every foreground-determined quantity (same buffer: a view)
+        out = VArr(z3.simplify(z3.If(self.inbox(arr.space.x), arr.term, zero)), arr.dtype_name, arr.space, buf=arr.buf, owner=arr.owner)
+        out.box = self
+        cur().event("arr-crop", arr.buf, self.name)
+        return out
+
+
+def box_from_slices(eng, space, slices):
+    if not (isinstance(space.ndim, int) and len(slices) == space.ndim and all(isinstance(sl, slice) and sl.step is None for sl in slices)):
+        raise Unsupported("indexing with something other than one slice per axis")
+    space.declare_coords(eng)
+
+    def inbox(v, slices=slices):
+        cs = []
+        for k, sl in enumerate(slices):
+            c = space.coord(k)(v)
+            if sl.start is not None:
+                cs.append(c >= to_term(sl.start))
+            if sl.stop is not None:
+                cs.append(c < to_term(sl.stop))
+        return z3.And(*cs) if cs else z3.BoolVal(True)
+    return Box(inbox, slices)
+
+
+class Proj:
+    """np.any(img, axis=all axes but `keep`): 1-D boolean profile along axis keep"""
+
+    def __init__(self, arr, keep):
+        self.arr, self.keep = arr, keep
+
+
+class IdxSeq:
+    """np.where(profile)[0]: increasing indices along one axis at which some foreground voxel exists"""
+
+    def __init__(self, proj):
+        self.proj = proj
+
+    def pyvc_getitem(self, k):
+        eng = cur()
+        if isinstance(k, int) and k == 0:
+            return self
+        if isinstance(k, list) and k == [0, -1]:
+            arr, ax = self.proj.arr, self.proj.keep
+            sp = arr.space
+            sp.declare_coords(eng)
+            fg = arr.nonzero_term()
+            if not eng.truth(wrap(card(fg, sp) > 0)):
+                raise PyRaise(PyExc(IndexError, ("index 0 is out of bounds for axis 0 with size 0",)))
+            eng.fresh_n += 1
+            n = eng.fresh_n
+            lo, hi = z3.Int(f"lo{ax}!{n}"), z3.Int(f"hi{ax}!{n}")
+            wl, wh = z3.Const(f"wlo{ax}!{n}", Vox), z3.Const(f"whi{ax}!{n}", Vox)
+            v = z3.Const(f"pv!{n}", Vox)
+            at = lambda q: z3.substitute(fg, (sp.x, q))
+            c = sp.coord(ax)
+            eng.assume(z3.And(at(wl), c(wl) == lo, at(wh), c(wh) == hi, lo <= hi,
+                              z3.ForAll([v], z3.Implies(at(v), z3.And(lo <= c(v), c(v) <= hi)))), why="np.any/np.where: extreme foreground indices along an axis")
+            out = [SymInt(lo, True, "int64"), SymInt(hi, True, "int64")]
+            eng.__dict__.setdefault("bbox_extremes", []).append((ax, lo, hi, arr))
+            return out
+        raise Unsupported("index into np.where result")
+
+
+class SmallArr:
+    """a short 1-D array with a concrete number of (possibly symbolic) elements"""
+
+    def __init__(self, items, dtype):
+        self.items, self.dtype_name = list(items), dtype
+
+    def __mul__(self, o):
+        if isinstance(o, (int, Sym)):
+            return SmallArr([x * o for x in self.items], self.dtype_name)
+        return NotImplemented
+
+    __rmul__ = __mul__
+
+    def pyvc_len(self):
+        return len(self.items)
+
+    def pyvc_getitem(self, k):
+        if isinstance(k, int):
+            return self.items[k]
+        raise Unsupported("symbolic index into a small array")
+
+    def pyvc_iterate(self):
+        return list(self.items)
 
 
 class VSel:
@@ -981,7 +1109,14 @@ class NpModule:
             a = k.get("a")
         if isinstance(a, VArr):
             if axis is not None:
-                raise Unsupported("np.any with axis (geometry)")
+                nd = a.space.ndim
+                axes = tuple(axis) if isinstance(axis, (tuple, list)) else (axis,)
+                if not isinstance(nd, int) or any(isinstance(x, Sym) for x in axes):
+                    raise Unsupported("np.any with a symbolic axis")
+                keep = [k for k in range(nd) if k not in axes]
+                if len(keep) != 1:
+                    raise Unsupported("np.any reducing to other than one axis")
+                return Proj(a, keep[0])
             return a.any()
         for x in self.eng.iterate(a):
             if self.eng.truth(x):
@@ -1118,6 +1253,8 @@ class NpModule:
         return self._minmax(a, b, False)
 
     def where(self, c, a=None, b=None):
+        if a is None and isinstance(c, Proj):
+            return (IdxSeq(c),)
         if a is None or not isinstance(c, VArr):
             raise Unsupported("np.where in index form")
         ta = a.term if isinstance(a, VArr) else to_term(a)
@@ -1137,6 +1274,9 @@ class NpModule:
         return cache[key]
 
     def ones(self, shape, dtype=None):
+        if isinstance(shape, int) and shape <= 4:
+            dt = _dtype_name(dtype) if dtype is not None else "float64"
+            return SmallArr([np_scalar(1, dt) for _ in range(shape)], dt)
         sp = self._shape_space(shape)
         dt = _dtype_name(dtype) if dtype is not None else "float64"
         n = 1
